@@ -125,7 +125,7 @@ Section WithTables.
       OCall (mo_verb op) (normalise_path (build_path op names)) (mo_keys op) true
     | MResp k iterates r =>
       match classify r with
-      | OkNone => OResp (if iterates then Escaped else OkNone)   (* TypeError on None escapes *)
+      | OkNone => OResp (if iterates then OkJson else OkNone)    (* no JSON: an empty result *)
       | o => OResp o
       end
     end.
